@@ -202,6 +202,11 @@ func (ex *Exec) run(fr *Frame) (Value, *Panic) {
 		for i, instr := range blk.Instrs {
 			fr.ip = i
 			ex.instrs++
+			if ex.workLimit > 0 && ex.instrs-ex.workBase > ex.workLimit {
+				ex.workLimit = 0
+				ex.reportSite("work", "budget", "more interpreted instructions than the harness allows for this input size (work not proportional to the input)")
+				ex.endPath("work-limit")
+			}
 			if ex.instrs > ex.cfg.MaxInstrs {
 				ex.inconcl = append(ex.inconcl, "instruction budget exceeded on a path")
 				ex.endPath("instr-budget")
